@@ -45,16 +45,18 @@ const (
 )
 
 type review struct {
-	Cluster string
-	Kind    string // token | sar
-	Key     string
+	Cluster  string // the cluster the answering endpoint belonged to when it received the review ("" = nobody's endpoint)
+	Kind     string // token | sar
+	Key      string
+	Endpoint string
+	EpReady  bool // that endpoint was a ready endpoint of that cluster at that moment
 }
 
 type scluster struct {
 	name  string
 	info  *clusters.ClusterInfo
-	cs    *fake.Clientset
-	ready bool
+	ready bool // false = the whole cluster has no ready endpoint (whatever the endpoints' own flags say)
+	rr    int
 	salt  uint64
 	log   *reviewLog
 	gates *gateSet
@@ -122,10 +124,37 @@ func newSCluster(name string, salt uint64, log *reviewLog, gates *gateSet) *sclu
 	c := &scluster{name: name, ready: true, salt: salt, log: log, gates: gates}
 	// a ClusterInfo of its own: Context() is what the production code ties its cache lifetime to
 	c.info = clusters.NewEmptyClusterInfo(name, nil, nil, "", nil)
-	c.cs = fake.NewSimpleClientset()
-	c.cs.PrependReactor("create", "tokenreviews", func(action k8stesting.Action) (bool, k8sruntime.Object, error) {
+	return c
+}
+
+// sendpoint is one upstream API server. It belongs to one cluster at a time (or to nobody after it was removed), can be
+// ready or not, and answers a review with the table of the cluster it belongs to when the review arrives - like a real
+// server that was moved from one UpstreamCluster object to another.
+type sendpoint struct {
+	name  string
+	cs    *fake.Clientset
+	p     *provider
+	owner *scluster // guarded by p.mu
+	ready bool      // guarded by p.mu
+}
+
+func (e *sendpoint) state() (*scluster, bool) {
+	e.p.mu.RLock()
+	defer e.p.mu.RUnlock()
+	return e.owner, e.owner != nil && e.ready && e.owner.ready
+}
+
+func newEndpoint(name string, p *provider, owner *scluster, log *reviewLog, gates *gateSet) *sendpoint {
+	e := &sendpoint{name: name, p: p, owner: owner, ready: true, cs: fake.NewSimpleClientset()}
+	e.cs.PrependReactor("create", "tokenreviews", func(action k8stesting.Action) (bool, k8sruntime.Object, error) {
 		tr := action.(k8stesting.CreateAction).GetObject().(*authenticationv1.TokenReview).DeepCopy()
-		log.add(review{Cluster: name, Kind: "token", Key: tr.Spec.Token})
+		c, epReady := e.state()
+		if c == nil {
+			log.add(review{Cluster: "", Kind: "token", Key: tr.Spec.Token, Endpoint: e.name})
+			return true, nil, fmt.Errorf("this server belongs to no cluster")
+		}
+		name := c.name
+		log.add(review{Cluster: name, Kind: "token", Key: tr.Spec.Token, Endpoint: e.name, EpReady: epReady})
 		gates.hold("token", tr.Spec.Token, name)
 		switch c.answer("token", tr.Spec.Token) {
 		case ansYes:
@@ -138,10 +167,16 @@ func newSCluster(name string, salt uint64, log *reviewLog, gates *gateSet) *sclu
 		}
 		return true, tr, nil
 	})
-	c.cs.PrependReactor("create", "subjectaccessreviews", func(action k8stesting.Action) (bool, k8sruntime.Object, error) {
+	e.cs.PrependReactor("create", "subjectaccessreviews", func(action k8stesting.Action) (bool, k8sruntime.Object, error) {
 		sar := action.(k8stesting.CreateAction).GetObject().(*authorizationv1.SubjectAccessReview).DeepCopy()
 		key := sarKey(&sar.Spec)
-		log.add(review{Cluster: name, Kind: "sar", Key: key})
+		c, epReady := e.state()
+		if c == nil {
+			log.add(review{Cluster: "", Kind: "sar", Key: key, Endpoint: e.name})
+			return true, nil, fmt.Errorf("this server belongs to no cluster")
+		}
+		name := c.name
+		log.add(review{Cluster: name, Kind: "sar", Key: key, Endpoint: e.name, EpReady: epReady})
 		gates.hold("sar", key, name)
 		if err := gates.fault("sar", key, name); err != nil {
 			return true, nil, err
@@ -158,7 +193,7 @@ func newSCluster(name string, salt uint64, log *reviewLog, gates *gateSet) *sclu
 		}
 		return true, sar, nil
 	})
-	return c
+	return e
 }
 
 // provider is the stub clusters.ClientProvider: the same contract as clusters.manager.ClientFor (unknown host: cluster
@@ -166,19 +201,42 @@ func newSCluster(name string, salt uint64, log *reviewLog, gates *gateSet) *sclu
 type provider struct {
 	mu    sync.RWMutex
 	hosts map[string]*scluster
+	eps   []*sendpoint
+}
+
+// readyEndpointsLocked: the ready endpoints of c (what ClusterInfo.PickOne chooses from).
+func (p *provider) readyEndpointsLocked(c *scluster) []*sendpoint {
+	var out []*sendpoint
+	if c == nil || !c.ready {
+		return nil
+	}
+	for _, e := range p.eps {
+		if e.owner == c && e.ready {
+			out = append(out, e)
+		}
+	}
+	return out
+}
+
+func (p *provider) usable(c *scluster) bool {
+	p.mu.RLock()
+	defer p.mu.RUnlock()
+	return len(p.readyEndpointsLocked(c)) > 0
 }
 
 func (p *provider) ClientFor(name string) (*clusters.ClusterInfo, kubernetes.Interface, error) {
-	p.mu.RLock()
-	defer p.mu.RUnlock()
+	p.mu.Lock()
+	defer p.mu.Unlock()
 	c := p.hosts[strings.ToLower(name)]
 	if c == nil {
 		return nil, nil, fmt.Errorf("cluster %q: %w", name, clusters.ErrClusterNotFound)
 	}
-	if !c.ready {
+	ready := p.readyEndpointsLocked(c)
+	if len(ready) == 0 {
 		return c.info, nil, clusters.ErrNoReadyEndpoints
 	}
-	return c.info, c.cs, nil
+	c.rr++ // round robin over the ready endpoints, as PickOne does
+	return c.info, ready[c.rr%len(ready)].cs, nil
 }
 
 func (p *provider) owner(host string) *scluster {
@@ -267,6 +325,9 @@ func newScenario(r *vkit.R, idx int, g *vkit.Rand) *scenario {
 	k := g.Range(2, 4)
 	for i := 0; i < k; i++ {
 		c := newSCluster(fmt.Sprintf("cl%d", i), g.Uint64(), s.log, s.gates)
+		for j, ne := 0, g.Range(2, 3); j < ne; j++ {
+			s.p.eps = append(s.p.eps, newEndpoint(fmt.Sprintf("%s-server%d", c.name, j), s.p, c, s.log, s.gates))
+		}
 		s.cls = append(s.cls, c)
 		s.setOwner(c.name, c)
 		s.hostPool = append(s.hostPool, c.name)
@@ -344,7 +405,12 @@ func (s *scenario) judge(kind string, o *op, owner *scluster, positive bool, pro
 		r.Count("reviews_observed", 1)
 		if rv.Cluster != ownerName {
 			r.Violation("C12/"+kind+"/review-sent-to-other-cluster"+s.sigCtx,
-				fmt.Sprintf("request addressed to host %q (cluster %q) caused a %s review at cluster %q", o.Host, ownerName, rv.Kind, rv.Cluster), s.witness(nil))
+				fmt.Sprintf("request addressed to host %q (cluster %q) caused a %s review that was received by server %s, which belongs to cluster %q", o.Host, ownerName, rv.Kind, rv.Endpoint, orNone(rv.Cluster)), s.witness(nil))
+			return
+		}
+		if !rv.EpReady {
+			r.Violation("C12/"+kind+"/review-sent-to-endpoint-that-is-not-ready"+s.sigCtx,
+				fmt.Sprintf("request addressed to host %q (cluster %q) caused a %s review that was received by server %s, which is not a ready endpoint of that cluster at that moment", o.Host, ownerName, rv.Kind, rv.Endpoint), s.witness(nil))
 			return
 		}
 	}
@@ -368,7 +434,7 @@ func (s *scenario) judge(kind string, o *op, owner *scluster, positive bool, pro
 		why := "unknown-host"
 		if provFromErr {
 			why = "own-cluster-review-failed"
-		} else if owner != nil && !owner.ready {
+		} else if owner != nil && !s.p.usable(owner) {
 			why = "no-ready-endpoint"
 		} else if owner != nil {
 			why = "own-cluster-gave-no-such-answer"
@@ -385,7 +451,7 @@ func (s *scenario) judge(kind string, o *op, owner *scluster, positive bool, pro
 		}
 	case owner == nil:
 		r.Count(kind+"_refused_unknown_host", 1)
-	case !owner.ready:
+	case !s.p.usable(owner):
 		r.Count(kind+"_refused_no_ready_endpoint", 1)
 	default:
 		// own cluster could be asked but the result carries nobody's answer: not a cross-cluster matter, only counted
@@ -531,6 +597,10 @@ func (s *scenario) run(nops int) {
 			s.retryCase()
 			continue
 		}
+		if g.Chance(0.07) {
+			s.endpointOp()
+			continue
+		}
 		if g.Chance(0.08) {
 			// concurrent phase: the same fresh credentials go to hosts of different clusters at the same time
 			s.overlapCase(g.Bool())
@@ -626,6 +696,59 @@ func (s *scenario) run(nops int) {
 	}
 }
 
+// endpointOp: one upstream server becomes unready / ready, is removed from its cluster, or is given to another cluster
+// (then it answers with that cluster's table). Afterwards fresh credentials (no cache entry can answer) are sent to the
+// hosts of the clusters involved, so that new reviews have to be made.
+func (s *scenario) endpointOp() {
+	g := s.g
+	s.p.mu.Lock()
+	e := s.p.eps[g.Intn(len(s.p.eps))]
+	from := e.owner
+	live := s.liveClusters()
+	var to *scluster
+	what := ""
+	switch k := g.Intn(10); {
+	case from != nil && k < 3:
+		e.ready = !e.ready
+		what = fmt.Sprintf("ready=%v", e.ready)
+	case from != nil && k < 5:
+		e.owner = nil
+		what = "removed from " + from.name
+	case len(live) > 0:
+		to = live[g.Intn(len(live))]
+		if to == from {
+			s.p.mu.Unlock()
+			return
+		}
+		e.owner, e.ready = to, true
+		what = "now a server of " + to.name
+		if from != nil {
+			what += " (was " + from.name + ")"
+		}
+	default:
+		s.p.mu.Unlock()
+		return
+	}
+	s.p.mu.Unlock()
+	s.features["endpoint-change"] = true
+	s.r.Count("endpoint_changes", 1)
+	s.ops = append(s.ops, op{Kind: "endpoint", Host: e.name, Attr: what})
+	for _, c := range []*scluster{from, to} {
+		if c == nil || s.gone[c.name] {
+			continue
+		}
+		n := 0
+		for _, h := range s.hostPool {
+			if s.p.owner(h) == c && n < 2 {
+				n++
+				s.caseN++
+				s.doAuthn(h, fmt.Sprintf("tok-new-%d", s.caseN))
+				s.doAuthz(h, fmt.Sprintf("erin-%d", s.caseN), g.Intn(len(attrSpecs)))
+			}
+		}
+	}
+}
+
 // probeHost replays recently used credentials on a host whose ownership just changed.
 func (s *scenario) probeHost(host string, rec []recent) {
 	n := 0
@@ -645,7 +768,8 @@ func TestCheck(t *testing.T) {
 			"(2-4 clusters with fake clientsets whose tokenreview/subjectaccessreview reactors answer from a fixed per-cluster table: same token => a different user per cluster, " +
 			"same SAR => allow/deny/no-opinion/outage per cluster). Seeded random sequences of 60 operations: AuthenticateToken / Authorize (incl. impersonate users/groups) for 4 tokens, " +
 			"2 users x 5 attribute tuples on 7-9 hosts (cluster names, aliases, an unknown host), with re-use of recent credentials on other hosts; an alias moves to another live cluster " +
-			"(followed by a replay of the recent credentials on it); a cluster loses / regains its ready endpoint; an alias is dropped; a cluster is deleted; " +
+			"(followed by a replay of the recent credentials on it); every cluster has 2-3 upstream servers (one fake clientset each, ClientFor picks a ready one round-robin like PickOne): a server becomes unready / ready, " +
+			"is removed, or is given to another cluster and then answers with that cluster's table (followed by fresh credentials on the hosts of the clusters involved); a cluster loses / regains all its ready endpoints; an alias is dropped; a cluster is deleted; " +
 			"concurrent phase (about 5 per scenario): one fresh token, or one fresh user x attribute tuple, is sent to 2-4 hosts of pairwise different clusters at the same time - the stub review of the " +
 			"first request is held at a barrier inside the reactor until the other requests have been issued (and have reached their own cluster's barrier or returned), so the overlap is " +
 			"constructed, not hoped for; the credentials are then replayed sequentially on the same hosts; retry phase (one per 6th scenario): the first SubjectAccessReview of a fresh user x attribute tuple " +
@@ -692,6 +816,7 @@ func TestCheck(t *testing.T) {
 			"too few request pairs with the same credentials overlapped (review of the first in flight while the second was issued)")
 		r.Require(r.Counter("retry_cases") >= int64(ns/12) && r.Counter("retry_cases_impersonation") >= int64(ns/60),
 			"too few reviews were retried after a retriable failure with the host moved to another cluster in between")
+		r.Require(r.Counter("endpoint_changes") >= int64(ns*2), "too few endpoint changes (unready / removed / moved to another cluster)")
 		r.Require(r.Counter("gate_watchdog_expired") == 0, "a gated stub review was not released within the 20s watchdog")
 		r.Require(r.Counter("own_cluster_answer_differs_from_table") == 0, "instrument broken: an answer attributed to the host's own cluster is not that cluster's table answer")
 	})
